@@ -11,6 +11,7 @@ import (
 	"fmt"
 	"os"
 	"os/exec"
+	"syscall"
 )
 
 type input struct {
@@ -239,3 +240,32 @@ func Not(a bool) bool { return !a }
 // EqInt / EqString compare without a branch.
 func EqInt(a, b int) bool       { return a == b }
 func EqString(a, b string) bool { return a == b }
+
+// TryLock reports whether nobody holds an exclusive flock on file p.
+func TryLock(p string) bool {
+	fh, err := os.OpenFile(p, os.O_CREATE|os.O_RDONLY, 0644)
+	if err != nil {
+		return true
+	}
+	defer fh.Close()
+	if err := syscall.Flock(int(fh.Fd()), syscall.LOCK_EX|syscall.LOCK_NB); err != nil {
+		return false
+	}
+	syscall.Flock(int(fh.Fd()), syscall.LOCK_UN)
+	return true
+}
+
+var heldLocks []*os.File
+
+// HoldLock takes an exclusive flock on p and keeps it (another session
+// holding the device).
+func HoldLock(p string) {
+	fh, err := os.OpenFile(p, os.O_CREATE|os.O_RDONLY, 0644)
+	if err != nil {
+		panic(err)
+	}
+	if err := syscall.Flock(int(fh.Fd()), syscall.LOCK_EX|syscall.LOCK_NB); err != nil {
+		panic(err)
+	}
+	heldLocks = append(heldLocks, fh)
+}
